@@ -311,12 +311,29 @@ fn gen_statements(fields: &Fields, encoding: Encoding) -> syn::Result<proc_macro
             let tag  = decode_tag(&field.attrs);
             let name = &field.ident;
 
+            // An encoder that does not know a (newer) optional field fills its array
+            // position with a plain NULL. Such a placeholder carries no tag, so for a
+            // tagged field which has a nil value NULL means "absent".
+            let absent =
+                if field.attrs.tag().is_some() {
+                    let nil = nil(field);
+                    quote! {
+                        if minicbor::data::Type::Null == __d777.datatype()? && #nil.is_some() {
+                            __d777.skip()?
+                        } else
+                    }
+                } else {
+                    quote!()
+                };
+
             quote! {{
-                #tag
-                match #decode_fn(__d777, __ctx777) {
-                    Ok(__v777) => #name = #value,
-                    #unknown_var_err
-                    Err(e) => return Err(e)
+                #absent {
+                    #tag
+                    match #decode_fn(__d777, __ctx777) {
+                        Ok(__v777) => #name = #value,
+                        #unknown_var_err
+                        Err(e) => return Err(e)
+                    }
                 }
             }}
     })
